@@ -936,6 +936,76 @@ func ruleResultOwnedByWaiter(c *Ctx, rule string) {
 		c.Bad(rule, fname(handle), "result message", w.pos(handle.Pos()), "no TransactionResult with a message is written on the inbound path: anchor gone")
 		return
 	}
+	// the bytes the message's attributes point into belong to the message too: whatever is
+	// stored into Message.Raw on the inbound path is a private copy of the packet, not the
+	// caller's (reused) read buffer
+	{
+		c.Anchor(rule, "raw bytes")
+		scope := map[*ssa.Function]bool{}
+		for _, f := range w.reachableHelpers(handle) {
+			scope[f] = true
+		}
+		w.eachInstrDeep(handle, func(in ssa.Instruction) { scope[in.Parent()] = true })
+		nRaw := 0
+		var freshAt func(v ssa.Value, at *ssa.Function, d int) bool
+		freshAt = func(v ssa.Value, at *ssa.Function, d int) bool {
+			if isNilConst(stripIface(w.resolveLoad(v))) || w.freshBytes(v, 0) {
+				return true
+			}
+			p, isP := stripIface(w.resolveLoad(v)).(*ssa.Parameter)
+			if !isP || d > 2 || p.Parent() == handle {
+				return false
+			}
+			sites := w.callsTo(p.Parent())
+			if len(sites) == 0 {
+				return false
+			}
+			for _, cs := range sites {
+				i := paramIndex(p)
+				if i < 0 || i >= len(cs.Common().Args) || !freshAt(cs.Common().Args[i], cs.Parent(), d+1) {
+					return false
+				}
+			}
+			return true
+		}
+		for _, f := range sortedFns(scope) {
+			w.eachInstr(f, func(in ssa.Instruction) {
+				st, ok := in.(*ssa.Store)
+				if !ok {
+					return
+				}
+				fa, ok := st.Addr.(*ssa.FieldAddr)
+				if !ok || nm(fieldOf(fa)) != "Raw" || !strings.HasSuffix(derefType(fa.X.Type()).String(), "stun/v3.Message") {
+					return
+				}
+				nRaw++
+				// msg.Raw = append(msg.Raw[:0], data...): the packet is copied into storage the
+				// message already owns
+				selfAppend := false
+				if ac, isC := stripIface(st.Val).(*ssa.Call); isC {
+					if b, isB := ac.Call.Value.(*ssa.Builtin); isB && b.Name() == "append" && len(ac.Call.Args) == 2 {
+						base := ac.Call.Args[0]
+						if sl, isSl := base.(*ssa.Slice); isSl {
+							base = sl.X
+						}
+						if ld, isLd := base.(*ssa.UnOp); isLd && ld.Op == token.MUL {
+							if fa2, isFA := ld.X.(*ssa.FieldAddr); isFA && fa2.Field == fa.Field && (fa2.X == fa.X || w.sameKey(fa2.X, fa.X)) {
+								selfAppend = true
+							}
+						}
+					}
+				}
+				if selfAppend || freshAt(st.Val, f, 0) {
+					c.OK(rule, fname(f), "raw bytes", w.instrPos(in), "the message decodes a private copy of the packet")
+				} else {
+					c.Bad(rule, fname(f), "raw bytes", w.instrPos(in), "the message handed to the waiting transaction is decoded in place over the caller's buffer ("+w.desc(st.Val)+"): its attributes point into the read buffer the listen loop reuses, so the next datagram rewrites the response the caller is still reading")
+				}
+			})
+		}
+		if nRaw == 0 {
+			c.Bad(rule, fname(handle), "raw bytes", w.pos(handle.Pos()), "no store to Message.Raw found on the inbound path: anchor gone")
+		}
+	}
 	// no pool.Put after the hand-over, on any path
 	c.Anchor(rule, "no recycling after hand-over")
 	may := w.mayContain(func(in ssa.Instruction) bool {
